@@ -13,6 +13,8 @@ AllClasses == {"unterminatedQuote", "strayOperator", "hugeNumber", "negative", "
                "tokenizerBytes", "hugeExponent", "deepNesting", "lineContinuation", "builtinName",
                \* a list of twenty thousand items in one cell (code lists of Choice fields, ranges): tokenizing must not take memory
                \* by the square of the length
-               "longList"}
+               "longList",
+               \* a count expression that only fails for the count the data give
+               "countDependent"}
 FewClasses == {"unterminatedQuote", "hugeNumber", "nan", "commaOnly", "badRegex", "nul", "strayOperator", "nonAscii"}
 =============================================================================
